@@ -349,6 +349,31 @@ CLAIMS["C20"] = dict(
          "keeps the termination preconditions of kNN and rewiring kernels.",
     design="3/C20")
 
+CLAIMS["C19"] = dict(
+    technique="serial-vs-distributed differential with a harness-owned "
+              "scheduler: in-process MPI stand-in (snapshot semantics, "
+              "per-worker FIFOs, generated execution orders), exhaustive "
+              "enumeration of schedules and of chunk partitions",
+    text="The library's mpi module is patched in-process (available, size, "
+         "comm = FakeComm that pickles at send and evaluates jobs as "
+         "serve() does, in an order taken from the generated case; the "
+         "library's real serve() is also used as worker). Newman, n.s.i. "
+         "Newman (bit-exact) and n.s.i. Arenas (1e-9) betweenness under "
+         "worker counts 2..N+2, silence levels 0..3 and eager / lazy / "
+         "reverse / priority / drawn schedules equal the serial result on "
+         "networks with several components of 1..125 nodes; all 24 "
+         "execution orders of up to 4 queued jobs are enumerated on fixed "
+         "networks; the chunk kernels are called on every contiguous "
+         "composition of the node range (all 2^(N-1) for small graphs, "
+         "random beyond) and must concatenate / sum to the full-range call "
+         "and assemble to the public serial measure; "
+         "nsi_betweenness(parallelize=True) equals the serial call on a few "
+         "graphs with really spawned pools.",
+    note="Trusted: the stand-in (FIFO-per-worker message passing with "
+         "snapshot semantics). Real MPI timing, crashes and mpi4py itself "
+         "are not exercised (not installed).",
+    design="3/C19")
+
 NOT_CLAIMED = {}
 
 
